@@ -329,6 +329,16 @@ pub fn generate(rng: &mut Rng, shape: &Shape) -> Program {
                     body.push_str("  static int f2();\n");
                 }
                 if rng.chance(1, 3) {
+                    // virtual methods: their signature types are needed by the vtable struct
+                    let a = pick_type(&p, rng, &mut deps, true);
+                    let r = pick_type(&p, rng, &mut deps, true);
+                    body.push_str(&format!("  virtual {r} fv1({a} a);\n"));
+                    if rng.chance(1, 2) {
+                        let a2 = pick_type(&p, rng, &mut deps, true);
+                        body.push_str(&format!("  virtual void fv2({a2} a, int b) const;\n"));
+                    }
+                }
+                if rng.chance(1, 3) {
                     let a = pick_type(&p, rng, &mut deps, true);
                     body.push_str(&format!("  {base}({a} a);\n"));
                 }
